@@ -199,6 +199,12 @@ class JokerSamples:
                 f"Units of '{key}' must be convertable to " f"{expected_unit}"
             )
 
+        if isinstance(val.unit, u.function.FunctionUnitBase):
+            # a logarithmic quantity (dex, mag) counts as convertible, but the
+            # column arithmetic here (products with angles, means, scalings by a
+            # unit factor) is only right for the quantity itself: keep that
+            val = val.physical
+
         self.tbl[key] = val
 
     @property
